@@ -523,3 +523,16 @@ for _p in ("C13", "C20", "C17"):
         "validate_args: a parameter list containing `_` is accepted as soon as the `_` is reached (`break`), the remaining parameters are then only "
         "checked when the function is called (bind_next); the acceptance => validity clauses are therefore stated for parameter lists without `_`; "
         "std VecDeque / HashMap<String, Location> are assumed sequence / finite-map contracts; anonymous functions are not validated at definition"]
+
+
+# the type functions ->len() / ->type() (C15 byte length; C16 names, arity, receiver)
+V_TYPEFNS = VUnit("typefns", "typefns", ["builtins::type_functions::str_len", "builtins::type_functions::any_type", "builtins::type_functions::render_type",
+                                         "builtins::fns::assert_args", "builtins::fns::assert_this", "builtins::fns::assert_str"])
+ALL_V += [V_TYPEFNS]
+PROPS["C02"]._v = ALL_V
+PROPS["C15"]._v = PROPS["C15"]._v + [V_TYPEFNS]
+PROPS["C16"]._v = PROPS["C16"]._v + [V_TYPEFNS]
+PROPS["C15"].not_covered = [x for x in PROPS["C15"].not_covered if x != "->len()"]
+PROPS["C15"].assumptions = PROPS["C15"].assumptions + [
+    "V-typefns: `->len()` = number of bytes of the receiver, for any string; std contracts assumed: String::from_utf8 yields a String with exactly those bytes, "
+    "String::len is its byte length, chars().count() its character count; the lookup of `len` in the type-function table (eval_expr Prop arm with type_prop) is V-expr's"]
